@@ -55,7 +55,7 @@ var verifTagKeywords = []string{"current", "link", "tags", "_manifests", "_layer
 // layout directory names, or minLen..maxLen symbolic bytes.
 func verifTag(minLen, maxLen int) string {
 	if verif.Choice("tag_kind", 2) == 0 {
-		return verifTagKeywords[verif.Choice("tag_keyword", verif.Bound("tag_keywords", 2, 4))]
+		return verifTagKeywords[verif.Choice("tag_keyword", verif.Bound("tag_keywords", 2, len(verifTagKeywords)))]
 	}
 	l := verif.Len("tag_len", minLen, maxLen)
 	b := verif.Bytes("tag", l)
@@ -96,7 +96,7 @@ func verifDockerTagCheck(root, repo, tag string) {
 // VerifDockerTagRoundTrip: DockerTagPather, repo:tag names from the grammar.
 func VerifDockerTagRoundTrip() {
 	root := verifNameRoot()
-	repo := verifRepo(verif.Bound("repo_comps", 2, 3), verif.Bound("repo_comp_len", 1, 1))
+	repo := verifRepo(verif.Bound("repo_comps", 2, 3), verif.Bound("repo_comp_len", 1, 2))
 	tag := verifTag(verif.Bound("tag_min", 2, 1), verif.Bound("tag_max", 2, 3))
 	verifDockerTagCheck(root, repo, tag)
 }
